@@ -18,7 +18,7 @@ RULE = ("initial write then up to depth d operations, BFS with de-duplication on
         "2020-01-01 / 2020-01-01 00:00:00.5 / 2021-06-15 12:00, whose directory names differ from str(value)), 'idx' "
         "(1 partition column, a named int64 index written with the data), 'many' (0 or 1 partition columns, 12 "
         "one-row chunks so that part numbers have two digits; depth 1 only). Operations on 'plain' and 'many': "
-        "append(frame) x 4 frames, append='overwrite'(frame) x 4, the same two with frame 'aa' split in two chunks "
+        "append(frame) x 4 frames, append='overwrite'(frame) x 4, overwrite x 3 / append x 1 with the partition column given as a categorical listing all partition values (unobserved categories), the same two with frame 'aa' split in two chunks "
         "(row_group_offsets=[0,1]: two new files in one partition directory), remove_row_groups(S) for every non-empty "
         "subset S of the first 4 row groups plus {last}, {all} (sort_pnames False; 4 subsets also True), "
         "write_row_groups(frame, sort_key=file path, sort_pnames=True) x 2, _sort_part_names, a plain re-write "
@@ -93,6 +93,10 @@ def operations(nparts, lay="plain", tier="quick", prev=None):
         ops = [o for o in base_operations() if o["op"] in ("append", "overwrite")]
         return ops + chunked_operations(tier)
     ops = base_operations() + chunked_operations(tier)
+    if lay in ("plain", "many") and nparts >= 1:
+        for f in ("a", "c", "ab"):
+            ops.append({"op": "overwrite", "frame": f, "catkeys": True})
+        ops.append({"op": "append", "frame": "c", "catkeys": True})
     ops.append({"op": "remove", "rgs": "last", "sort": False})
     ops.append({"op": "remove", "rgs": "all", "sort": False})
     ops.append({"op": "rewrite", "frame": "ab"})
@@ -190,7 +194,7 @@ def pkey(name, lay):
     return name
 
 
-def make_frame(name, step, nparts, lay="plain"):
+def make_frame(name, step, nparts, lay="plain", catkeys=False):
     import pandas as pd
     rows = FRAMES.get(name) or EXTRA_FRAMES[name]
     ids = [step * 100 + i for i in range(len(rows))]
@@ -203,6 +207,10 @@ def make_frame(name, step, nparts, lay="plain"):
         vcol = pd.Series([vs[0], 3.5], dtype=object)
     pcol = (pd.Series([pval(r[0], lay) for r in rows]) if lay == "ts"
             else pd.Series([r[0] for r in rows], dtype=object))
+    if catkeys:
+        # the partition column as a categorical that lists every partition value of the dataset, as a frame read
+        # from the dataset and cut down to some partitions has it (read - modify - write back)
+        pcol = pd.Series(pd.Categorical([r[0] for r in rows], categories=["a", "ab", "c"]))
     df = pd.DataFrame({"id": idcol, "v": vcol, "p": pcol,
                        "q": pd.Series([r[1] for r in rows], dtype="int64")})
     model = [(i, "s%d" % i, pkey(r[0], lay), r[1]) for i, r in zip(ids, rows)]
@@ -404,12 +412,12 @@ def run(point):
         refused = None
         try:
             if op["op"] == "append":
-                df, rows = make_frame(op["frame"], step, nparts, lay)
+                df, rows = make_frame(op["frame"], step, nparts, lay, op.get("catkeys", False))
                 fastparquet.write(path, df, file_scheme="hive", partition_on=parts, append=True,
                                   row_group_offsets=op.get("offsets"))
                 model = model + rows
             elif op["op"] == "overwrite":
-                df, rows = make_frame(op["frame"], step, nparts, lay)
+                df, rows = make_frame(op["frame"], step, nparts, lay, op.get("catkeys", False))
                 new_model = [r for r in model if part_of(r, nparts) not in {part_of(x, nparts) for x in rows}] + rows
                 fastparquet.write(path, df, file_scheme="hive", partition_on=parts, append="overwrite",
                                   row_group_offsets=op.get("offsets"))
